@@ -16,7 +16,7 @@
 (* Expressions (JSON records, field t):                                               *)
 (*   c(v) l(n) b(n) g(n) if(a,b,c) do(xs) let(bs,xs) loop(bs,xs) recur(args)          *)
 (*   fn(self,ps,xs) call(f,args) vec(xs) letfn(fs,xs) try(xs,cs,fin) throw(e)         *)
-(*   mkexc(c) def(n,e) callall(e)                                                     *)
+(*   mkexc(c) def(n,e) callall(e) obj field(e,n) mcall(e,n,args)                      *)
 (* Values (field ty): nil bool(i) int(i) kw(n) vec(xs) bi(n) clo(..) exc(c) var(n)    *)
 (*                                                                                    *)
 (* Order of evaluation is what the rules say: function position, then arguments left  *)
@@ -125,6 +125,10 @@ StepEv ==
     [] e.t = "throw" -> Ev(e.e, env, Push([k |-> "throw"], kont))
     [] e.t = "def" -> Ev(e.e, env, Push([k |-> "def", n |-> e.n], kont))
     [] e.t = "callall" -> Ev(e.e, env, Push([k |-> "callall0"], kont))
+    \* host interop on the harness object o: reading property p<n> logs 100+n; calling method m<n> logs 200+n
+    [] e.t = "obj" -> Ret([ty |-> "obj"], kont)
+    [] e.t = "field" -> Ev(e.e, env, Push([k |-> "field", n |-> e.n], kont))
+    [] e.t = "mcall" -> Ev(e.e, env, Push([k |-> "marg", n |-> e.n, done |-> <<>>, todo |-> e.args, env |-> env], kont))
 
 (* ---- "rt": a value reaches the top frame -------------------------------------------- *)
 RunFinally(fin, en, resume, saved, k) ==
@@ -166,6 +170,14 @@ StepRt ==
     [] f.k = "try" -> RunFinally(f.fin, f.env, "rt", v, k)
     [] f.k = "catch" -> RunFinally(f.fin, f.env, "rt", v, k)
     [] f.k = "fin" -> Go(f.resume, f.saved, env, k, store, glob, log)       \* value of the finally body is dropped
+    [] f.k = "field" ->        \* the target is evaluated, then the property is read exactly once
+         IF v.ty = "obj" THEN Go("rt", IF f.n = 0 THEN NilV ELSE IntV(f.n), env, k, store, glob, Append(log, 100 + f.n))
+         ELSE Thr(ExcV("AttributeError"), k)
+    [] f.k = "marg" ->         \* target first, then the arguments left to right, then the call
+         LET done == Append(f.done, v) IN
+           IF f.todo # <<>> THEN Ev(f.todo[1], f.env, Push([f EXCEPT !.done = done, !.todo = Tail(f.todo)], k))
+           ELSE IF done[1].ty = "obj" THEN Go("rt", VecV(Tail(done)), env, k, store, glob, Append(log, 200 + f.n))
+           ELSE Thr(ExcV("AttributeError"), k)
     [] f.k = "callall0" ->
          IF v.ty # "vec" THEN Thr(ExcV("TypeError"), k)
          ELSE IF v.xs = <<>> THEN Ret(VecV(<<>>), k)
